@@ -49,6 +49,8 @@ mod tree;
 pub mod unix_mode;
 pub mod unix_time;
 pub mod validate;
+#[cfg(feature = "verif_hooks")]
+pub mod verif_api;
 
 pub use crate::apath::Apath;
 pub use crate::archive::Archive;
